@@ -28,6 +28,33 @@ TITLES = {
 
 # property -> dict(specs, text, note, technique, design_ref)
 CHECKS = {
+    'C13': dict(
+        specs='CliS.tla, CliFlags.tla, Cli.tla, Trace_CliFlags.tla, Trace_Cli.tla',
+        text='TLC proves the transcribed argparse wiring equal to the documented flag meaning for all 2^19 flag sets and that each flag moves '
+             'only its own option; TLC judges the keyword arguments recorded from the real parse_args()+do_minify() (singles, pairs, annotation '
+             'group, random; thorough: all 2^19) and end-to-end runs in five output modes against api(Meaning(F)) with Meaning printed by the '
+             'spec; documented rejections must exit non-zero before anything is written.',
+        note='Meaning() is transcribed from --help/docs (appendix D). Runs are in-process (main() with argv/stdio patched). API result computed '
+             'by calling minify() with the spec-derived keyword arguments.',
+        technique='TLA+ (TLC): exhaustive flag-set check + trace validation of recorded CLI runs',
+        design_ref='3.7, 5 (C13)'),
+    'C14': dict(
+        specs='CliS.tla, Cli.tla, Trace_Cli.tla',
+        text='Size rule as invariants of the run model (NeverLarger, SizeRule) checked exhaustively; TLC judges real runs of every enumerated '
+             'configuration with shrinking/equal/growing/empty targets in all output modes incl. stdin, with and without the override, plus '
+             'byte-level sources whose UTF-8 re-encoding grows.',
+        note='Byte lengths measured on the real files/streams; API result from an in-process minify() call; in-process entry point.',
+        technique='TLA+ (TLC) model checking of the CLI run model + trace validation of recorded CLI runs',
+        design_ref='3.7, 5 (C14)'),
+    'C15': dict(
+        specs='CliS.tla, Cli.tla, Trace_Cli.tla',
+        text='Run model of main() over abstract file trees (reach x class per file, any visiting order, failure at any position) checked '
+             'exhaustively for <=3 (quick) / <=4 (thorough) files; every TLC-enumerated 2-file configuration and a seeded sample of 3-file '
+             'ones is materialised (nested dirs, symlinked dir, look-alike suffixes) and run through the real entry point with injected '
+             'read/write faults; TLC judges post-state, open events, visiting order and exit status.',
+        note='Faults injected through open() (root ignores permission bits); crash between truncate and write is model-only; in-process runs.',
+        technique='TLA+ (TLC) model checking with fault enumeration + trace validation of recorded CLI runs',
+        design_ref='3.7, 5 (C15)'),
     'C08': dict(
         specs='Pipeline.tla, PipelineS.tla, Trace_Pipeline.tla',
         text='TLC exhaustively checks the implementation-shaped pipeline model against the envelope (all 2^14 gating option sets x taint x '
